@@ -7211,7 +7211,10 @@ class SFTPServer:
 
         if self._chroot:
             normpath = posixpath.normpath(posixpath.join(b'/', path))
-            return posixpath.join(self._chroot, normpath[1:])
+
+            # POSIX normpath() keeps exactly two leading slashes, so strip
+            # all of them or the join below would discard the chroot
+            return posixpath.join(self._chroot, normpath.lstrip(b'/'))
         else:
             return path
 
